@@ -2281,6 +2281,16 @@ pub fn mls_family_case(rng: &mut Rng) -> String {
                 lit.push_str(&ind[..h]);
                 { let t = term!(); lit.push_str(t) };
             }
+            _ if q.len() >= 5 && rng.chance(1, 3) => {
+                // an interior line of a 5- or 7-quote literal that consists of a SHORTER run of quotes (odd or even), alone or
+                // followed by text: part of the value, not the end of the literal
+                lit.push_str(&ind);
+                lit.push_str(&"'".repeat(rng.range(1, q.len() - 1)));
+                if rng.chance(1, 3) {
+                    lit.push_str(" tail");
+                }
+                { let t = term!(); lit.push_str(t) };
+            }
             _ => {
                 lit.push_str(&ind);
                 lit.push_str(&format!("text{}", i));
